@@ -52,7 +52,7 @@ def _mk(name, sort, k):
     return z3.BitVec("%s@%s" % (name, k), W) if sort == "i" else z3.Bool("%s@%s" % (name, k))
 
 
-def unroll(S, K, por=True, symmetry=None):
+def unroll(S, K, por=True, symmetry=None, context_bound=None):
     """Returns (constraints, info) where info has the per-step selectors and states."""
     w = S.w
     cons = []
@@ -61,6 +61,8 @@ def unroll(S, K, por=True, symmetry=None):
         cons.append(c <= hi)
     st = {n: _mk(n, so, 0) for n, (so, _) in S.vars.items()}
     for n, (so, init) in S.vars.items():
+        if n.startswith("fault."):
+            continue  # chosen by the solver, constant during the run (never assigned)
         cons.append(st[n] == (z3.BoolVal(bool(init)) if so == "b" else I(int(init))))
     pcs = {t.name: pcv(t.name, 0) for t in S.threads}
     for t in S.threads:
@@ -94,6 +96,15 @@ def unroll(S, K, por=True, symmetry=None):
             ens.append(en)
         anyen = z3.Or(ens) if ens else z3.BoolVal(False)
         enabled_any.append(anyen)
+        if context_bound is not None:
+            # a pre-emption: the thread that moved at step k-1 could still move now, but another thread is chosen
+            if k == 0:
+                preempt_cnt = z3.BitVecVal(0, 8)
+            else:
+                prev_tid = steps[-1]["tid"]
+                prev_can = z3.Or([z3.And(prev_tid == ti, ens[idx]) for idx, (ti, e) in enumerate(S.edges)])
+                preempt_cnt = z3.If(z3.And(tid != prev_tid, prev_can, anyen), preempt_cnt + 1, preempt_cnt)
+                cons.append(z3.ULE(preempt_cnt, z3.BitVecVal(context_bound, 8)))
         cons.append(z3.Implies(anyen, z3.Or(sels)))
         # next state
         writers = {}
